@@ -1,0 +1,22 @@
+//go:build verif
+
+// Contracts for govc (comment-only file; see /verif/DESIGN.md section 3).
+package hash
+
+//@ func New
+//@   modifies shared
+//@   ensures result != nil
+
+//@ func (*Hash).WriteAny
+//@   requires hash != nil
+//@   modifies shared
+
+//@ func (*Hash).Sum
+//@   requires hash != nil
+//@   modifies shared
+//@   ensures result != nil && len(result) == 64
+
+//@ func (*Hash).Clone
+//@   requires hash != nil
+//@   modifies shared
+//@   ensures result != nil
